@@ -140,4 +140,24 @@ theorem condition_table_is_the_models :
       (evalCond f (.map [(.int 1, .int 1)]) (.map [(.int 1, .int 1)])).toBool = tableAccepts conditionTable "TypeMap" (goCondFn f)) := by
   decide
 
+
+/-! ### results and typed errors (ovsdb/error.go, C12: result -> error -> result) -/
+
+def lookup (tb : List (String × String)) (k : String) : Option String := (tb.find? (·.1 == k)).map (·.2)
+
+/-- every named error survives result -> typed error -> result: `errorFromResult` turns the text of a
+    constant into a type that `ResultFromError` turns back into the same constant; the texts are pairwise
+    different, and the other way round every typed error of `ResultFromError` is produced from its text -/
+theorem error_tables_inverse :
+    (∀ c ∈ errorConsts, ∃ ty, lookup errorFromResultTable c.1 = some ty ∧ lookup resultFromErrorTable ty = some c.1) ∧
+    (∀ p ∈ resultFromErrorTable, lookup errorFromResultTable p.2 = some p.1) ∧
+    (errorConsts.map (·.2)).Nodup ∧ (errorConsts.map (·.1)).Nodup ∧
+    errorConsts.length = errorFromResultTable.length ∧ errorConsts.length = resultFromErrorTable.length := by
+  decide
+
+/-- the error classes the transaction model distinguishes are texts of the library -/
+theorem model_error_classes_exist :
+    ∀ e ∈ ["constraint violation", "referential integrity violation", "domain error", "range error", "not supported", "timed out"],
+      e ∈ errorConsts.map (·.2) := by decide
+
 end Ovsdb.GeneratedThm
